@@ -44,7 +44,11 @@ func (b *Body) Clear() {
 }
 
 func (b *Body) AppendUnstructuredTokens(ts Tokens) {
-	b.children.Append(ts)
+	// We copy the tokens here, as NewExpressionRaw does, so that later
+	// changes the caller makes to its slice can't alter the body.
+	copyTokens := make(Tokens, len(ts))
+	copy(copyTokens, ts)
+	b.children.Append(copyTokens)
 }
 
 // Attributes returns a new map of all of the attributes in the body, with
